@@ -23,6 +23,9 @@ def conditions(tier, seed):
                             bound='schema %s: every assignment of pool key values to 2 referred and %d referring rows (shard %d/%d)' % (sch, nb, sh, ns),
                             case_split=['ci (key assignment)'], realised=['model text'],
                             twin=(sch in ('uid', 'uid_str') and sh == 0)))
+    out.append(Cond('join_two_identifiers', 'c03_join.py', dict(schema='uid'), func='check_two_ids', timeout=t,
+                    bound='two associations from different classes into the same class through two different identifiers, referential attributes named alike; every key assignment, both statement orders',
+                    case_split=['ci'], realised=['model text']))
     for model in ('explicit', 'linked', 'inferred'):
         n = {'explicit': 8, 'linked': 8, 'inferred': 5}[model]
         # all permutations (8! = 40320 for the explicit models: sharded; quick takes a seed-rotated slice)
